@@ -22,13 +22,14 @@ VERIF = os.path.dirname(os.path.dirname(os.path.abspath(__file__)))
 
 
 def _apply(root, m):
-    path = os.path.join(root, m["file"])
-    with open(path) as f:
-        s = f.read()
-    if s.count(m["old"]) != 1:
-        return f"pattern occurs {s.count(m['old'])} times in {m['file']}"
-    with open(path, "w") as f:
-        f.write(s.replace(m["old"], m["new"]))
+    for file, old, new in [(m["file"], m["old"], m["new"])] + [tuple(x) for x in m.get("more", [])]:
+        path = os.path.join(root, file)
+        with open(path) as f:
+            s = f.read()
+        if s.count(old) != 1:
+            return f"pattern occurs {s.count(old)} times in {file}: {old[:60]!r}"
+        with open(path, "w") as f:
+            f.write(s.replace(old, new))
     return None
 
 
